@@ -3,22 +3,24 @@ _FP_FILE = "lib/executors/periodicalexecutor.go"
 SPEC = dict(
     level="exploration",
     technique="runtime monitor: recorded history of Add/Wait/execute events stamped from one atomic sequence, checked after each scenario (exactly once, batch order, bulk/chunk bounds, Wait-after-Add, tick liveness/quiescence); real Bulk/Chunk/PeriodicalExecutor on a harness ticker (unbuffered, offered ticks) and the virtual clock; gated execute callbacks for staged schedules; seeded random interleavings plainly and under the Go race detector; gofail sleeps at the hand-off points in the thorough tier",
-    level_text="Held = no deviation on the executions observed, not a proof. Quick: 4 000 plain + 3 000 -race seeded interleavings of 1-8 adder goroutines (Add/Wait/Flush/yield programs) against a ticking/idling/flushing/waiting driver over bulk, chunk and bare periodical executors (thresholds incl. the boundaries: 1, 2-10, out of reach (1000 tasks / 1 MiB / a container that never asks for a flush); chunk task sizes small 1-4, boundary {0, 1, limit-1, limit, limit+1, 2*limit+3}, all 0, mostly 0; GOMAXPROCS 2-16); 48 staged hand-off schedules with gated execute callbacks (a contributor or bystander calls Wait while a threshold batch sits between the adder's unlock and the flusher's registration); 360 idle-retirement schedules (Add steered into the flusher's quit decision by holding the executor lock through Sync, restart by a later Add, a task behind a commanded batch, liveness through ticks alone); ~90 Flush-only schedules (one goroutine adds below the threshold, no tick, no Wait, Flush: once Flush returned and the library is quiescent the tasks must have been executed); 120 multi-instance schedules (2-3 Bulk/Chunk executors created in every order from explicit-small / explicit-larger-than-default / no-option / interval-only / limit-only configurations, loaded concurrently, each judged against its own configured or default limit). Thorough: 15-30x the cases plus the random, hand-off and idle families again with gofail sleeps before the send on commander, after inflight--, before the confirm and at the entry of shallQuit.",
-    level_note="Trusts: Go runtime and race detector, the sync/atomic total order behind the stamps, the harness ticker, the ~150-line history checker. No verdict depends on wall-clock time: orderings are stamp comparisons with a real happens-before edge (Add returned -> stamp -> stamp -> Wait called; Wait returned -> stamp -> stamp -> execute callback about to return); 'never executed' / 'stranded' is decided only when every library goroutine is a flusher parked in its select or gone (goroutine dump) after three ticks it actually took; 25 s without progress of any actor inside Add/Wait/Flush is reported as a hang because 'Wait returns' is part of the statement. Not asserted: that Flush has executed its tasks by the time it returns (only that it triggers their execution), that a particular tick flushes (the tick after a commanded batch is skipped by design, a dropped tick is a no-op), that Flush waits for batches removed by somebody else, that the flusher must retire (counted; zero completed idle scenarios make the idle test inconclusive), order between batches, exact batch sizes below the bound, LessExecutor (not in the statement), and the SQL / metrics containers of lib/store/sqlx and lib/stat, which reuse PeriodicalExecutor with an append/RemoveAll container like the harness's typed container (the hand-shake under test lives in PeriodicalExecutor).",
+    level_text="Held = no deviation on the executions observed, not a proof. Quick: 4 000 plain + 3 000 -race seeded interleavings of 1-8 adder goroutines (Add/Wait/Flush/yield programs) against a ticking/idling/flushing/waiting driver over bulk, chunk and bare periodical executors (thresholds incl. the boundaries: 1, 2-10, out of reach (1000 tasks / 1 MiB / a container that never asks for a flush); chunk task sizes small 1-4, boundary {0, 1, limit-1, limit, limit+1, 2*limit+3}, all 0, mostly 0; GOMAXPROCS 2-16); 48 staged hand-off schedules with gated execute callbacks (a contributor or bystander calls Wait while a threshold batch sits between the adder's unlock and the flusher's registration); 360 idle-retirement schedules (Add steered into the flusher's quit decision by holding the executor lock through Sync, restart by a later Add, a task behind a commanded batch, liveness through ticks alone); ~90 Flush-only schedules (one goroutine adds below the threshold, no tick, no Wait, Flush: once Flush returned and the library is quiescent the tasks must have been executed); ~110 re-entrant schedules (execute re-adds its tasks once below the threshold; first generation run by Flush/Wait/tick/threshold hand-over; every call returns, both generations exactly once); 120 multi-instance schedules (2-3 Bulk/Chunk executors created in every order from explicit-small / explicit-larger-than-default / no-option / interval-only / limit-only configurations, loaded concurrently, each judged against its own configured or default limit). Thorough: 15-30x the cases plus the random, hand-off and idle families again with gofail sleeps before the send on commander, after inflight--, before the confirm and at the entry of shallQuit.",
+    level_note="Trusts: Go runtime and race detector, the sync/atomic total order behind the stamps, the harness ticker, the ~150-line history checker. No verdict depends on wall-clock time: orderings are stamp comparisons with a real happens-before edge (Add returned -> stamp -> stamp -> Wait called; Wait returned -> stamp -> stamp -> execute callback about to return); 'never executed' / 'stranded' is decided only when every library goroutine is a flusher parked in its select or gone (goroutine dump) after three ticks it actually took; 25 s without progress of any actor inside Add/Wait/Flush is reported as a hang because 'Wait returns' is part of the statement. Not asserted: how long a non-re-entrant Add may be delayed by a running execute (only that it returns), that Flush has executed its tasks by the time it returns (only that it triggers their execution), that a particular tick flushes (the tick after a commanded batch is skipped by design, a dropped tick is a no-op), that Flush waits for batches removed by somebody else, that the flusher must retire (counted; zero completed idle scenarios make the idle test inconclusive), order between batches, exact batch sizes below the bound, LessExecutor (not in the statement), and the SQL / metrics containers of lib/store/sqlx and lib/stat, which reuse PeriodicalExecutor with an append/RemoveAll container like the harness's typed container (the hand-shake under test lives in PeriodicalExecutor).",
     design_ref="DESIGN.md §3 C16",
     assumptions=[
-        "execute callbacks do not call back into the executor (no re-entrancy) and do not panic",
+        "execute callbacks do not panic; they may call Add on their own executor (retry pattern, TestVerifC16Reentrant) as long as that Add stays below the threshold - a threshold-reaching Add waits for the background flusher by design and can never complete from inside the flusher's own execute; the random/staged families use callbacks that do not call back",
         "task sizes of the chunk executor are non-negative (0 included: such a task never reaches the byte limit by itself and is run by tick/Flush/Wait/retirement); byte limit and bulk task count are >= 1",
         "tick liveness is asserted only for three ticks that the flusher actually took after Add returned (an offered tick that is not taken within 50 ms is dropped and counts for nothing)",
         "'added before Wait' means: Add returned, then a stamp was drawn from the shared atomic sequence, then a later stamp was drawn, then Wait was called (same or different goroutine)",
         "batches of one executor may execute concurrently (Flush callers and the flusher); no order between batches is asserted",
     ],
     runs=[
-        dict(name="plain", pkg="./lib/executors", run="^TestVerifC16(Handoff|Idle|Flush|Instances|Mix)$", timeout=300, timeout_thorough=2400,
+        dict(name="plain", pkg="./lib/executors", run="^TestVerifC16(Reentrant|Handoff|Idle|Flush|Instances|Mix)$", timeout=300, timeout_thorough=2400,
              hang_is_violation=True),
         dict(name="race", pkg="./lib/executors", run="^TestVerifC16Race$", race=True, timeout=300, timeout_thorough=2400,
              hang_is_violation=True),
         dict(name="bulkinserter", pkg="./lib/store/sqlx", run="^TestVerifC16BulkInserterRace$", race=True, timeout=300, timeout_thorough=1800,
+             hang_is_violation=True),
+        dict(name="bulkinserter-updatestmt", pkg="./lib/store/sqlx", run="^TestVerifC16BulkInserterUpdateStmt$", timeout=300, timeout_thorough=1800,
              hang_is_violation=True),
         dict(name="metrics", pkg="./lib/stat", run="^TestVerifC16MetricsRace$", race=True, timeout=300, timeout_thorough=1800,
              hang_is_violation=True),
